@@ -5,6 +5,7 @@ P = 'C08'
 def register(R):
   R.bounded_checks[P] = [
       ('bounded_operator_chains', 'all chains of <=3 operators from 11 (select/apply/assign/filter/sink; tuple, kwargs, nested-path, SKIP keys), fused and as named stages, vs a reference interpreter; input records untouched; sinks see every record once and are closed once'),
+      ('bounded_chain_api', 'TreeTransform.chain: fused (same name) and chained (different names) pairs route like the operator sequence'),
       ('bounded_sink_on_failure', 'an operator fails at each record: the error surfaces and every sink is closed exactly once'),
       ('bounded_filter_skip', 'filter under error skipping: a failing predicate drops only its record, verdicts stay aligned'),
       ('bounded_key_validation', 'invalid key combinations are rejected at build time, valid ones accepted'),
